@@ -33,6 +33,13 @@ pub fn encode(x: f64) -> u64 {
     let s = t + 4 - 4 * e16; // 0..=3
     debug_assert!((0..=3).contains(&s));
     let mant = m << s; // top bit in 52..=55
+    if e16 < -64 {
+        // below the normalised range: exponent byte 0 and a mantissa with leading zero digits; only
+        // callers that know the value is a multiple of 2^-312 come here (the shift must lose nothing)
+        let sh = 4 * (-64 - e16) as u32;
+        debug_assert!(sh < 56 && mant & ((1u64 << sh) - 1) == 0, "not representable exactly");
+        return (sign << 63) | (mant >> sh);
+    }
     (sign << 63) | (((e16 + 64) as u64) << 56) | mant
 }
 
